@@ -499,33 +499,8 @@ func findingKey(r *caseResult, f *failure) string {
 	case r.clashKind == "dup-cond" && f.Mode == "leaf" && (strings.Contains(f.What, "no struct field receives") || strings.Contains(f.What, "has no holder")):
 		// two inline fragments with the same type condition: the later one replaces the earlier one's struct
 		return "F-20e-repeated-type-condition-loses-fields"
-	case r.enumClash != "" && f.Mode == "compile" && strings.Contains(f.What, "redeclared in this block") && !reSelRedeclared.MatchString(f.What):
-		return "F-20f-enum-constant-collision"
-	case selNameClashPossible(&r.c.Schema) && f.Mode == "compile" && reSelRedeclared.MatchString(f.What):
-		// "sel"+T+counter is not injective when one composite type name is another one followed by digits
-		return "F-20g-sel-type-name-collision"
 	}
 	return ""
-}
-
-var reSelRedeclared = regexp.MustCompile(`\bsel\w+ redeclared`)
-
-// selNameClashPossible: some composite type name is another composite type name followed by digits.
-func selNameClashPossible(spec *SchemaSpec) bool {
-	var names []string
-	for _, t := range spec.Types {
-		if t.Kind == "object" || t.Kind == "iface" || t.Kind == "union" {
-			names = append(names, t.Name)
-		}
-	}
-	for _, a := range names {
-		for _, b := range names {
-			if len(b) > len(a) && strings.HasPrefix(b, a) && strings.Trim(b[len(a):], "0123456789") == "" {
-				return true
-			}
-		}
-	}
-	return false
 }
 
 func signature(r *caseResult) string {
@@ -785,6 +760,9 @@ func (h *harness) account(r *caseResult) {
 	}
 	if r.clash != "" {
 		run.Count("shape:go-name-clash")
+	}
+	if r.enumClash != "" {
+		run.Count("shape:enum-constants-share-camel-name")
 	}
 	b, _ := json.Marshal(struct {
 		S SchemaSpec
